@@ -129,7 +129,18 @@ def run(ctx):
                     ok = f[0] == "const" and (f[1].get("fn", {}).get("resolved") or {}).get("key") == tnv.key
                 if not ok:
                     bad.append(show_expr(c)[:100])
-            ctx.check(not bad, "K2.through-conversion", "%s returns only through the f64→JSON conversion (%s)" % (op, cfg), "%s also returns %s" % (op, bad), where=b.where(), fn=b.key, nontrivial=True)
+            if bad:
+                # the same on the decision cases of the table function read through its private helpers (x_ipath): in
+                # every case the function returns what the conversion returns, or an error — whichever adapter
+                # (`?`, match, and_then) carries the result there
+                verdict = returns_through(facts, b, tnv, u, stop_keys)
+                if verdict is None:
+                    ctx.unread("K2.through-conversion", "%s (%s)" % (op, cfg), "%s: what the operator returns (%s) was not read through its helpers" % (op, bad[0][:80]), where=b.where(), fn=b.key)
+                    bad = None
+                else:
+                    bad = verdict
+            if bad is not None:
+                ctx.check(not bad, "K2.through-conversion", "%s returns only through the f64→JSON conversion (%s)" % (op, cfg), "%s also returns %s" % (op, bad), where=b.where(), fn=b.key, nontrivial=True)
             nums = [(bb, bi, si) for (bb, bi, si, v) in u.value_aggregates() if v == "Number"] + [(s.body, s.bi, None) for s in u.calls_path(r"^<serde_json::Number as std::convert::From<.*>>::from$|^serde_json::Number::from_f64$|^serde_json::Value::from$")]
             for bb, bi, si in nums:
                 ctx.fail("K2.number-built-elsewhere", "%s|%s" % (op, bb.key.split("::", 1)[1]), "%s builds a JSON number outside the shared conversion (bypassing the finite / integrality / range checks)" % op, where=bb.where(bi, si) if si is not None else bb.where(bi), fn=bb.key)
@@ -191,12 +202,45 @@ def run(ctx):
             ctx.check(len(sites) >= 1, "K5.converts", "%s converts its operands (%s)" % (op, cfg), "no conversion call", where=b.where(), fn=b.key)
             for s in sites:
                 ok = error_on_none(s)
+                if ok == "unread":
+                    ctx.unread("K5.none-is-error", "%s: conversion in %s (%s)" % (op, s.body.key.split("::", 1)[1], cfg), "a failed conversion at %s builds an error and carries it round the loop (decided after the loop): that the function then returns it is not read" % s.where(), where=s.where(), fn=s.body.key)
+                    continue
                 ctx.check(ok, "K5.none-is-error", "%s: conversion at %s turns None into Err (%s)" % (op, s.where(), cfg),
                           "a failed conversion at %s is not turned into an error (it would be defaulted or skipped)" % s.where(), where=s.where(), fn=s.body.key, nontrivial=True)
             for s in u.calls(lambda c: DEFAULTERS.search(c["path"]) is not None):
                 ty = callee_of(s.term).get("full") or ""
                 if "f64" in ty:
                     ctx.fail("K5.defaulted", "%s|%s" % (op, callee_path(s.term).rsplit("::", 1)[1]), "%s consumes a conversion result with %s: a non-numeric operand is replaced by a number or skipped" % (op, callee_path(s.term)), where=s.where(), fn=s.body.key)
+
+
+def returns_through(facts, b, tnv, u, stop_keys):
+    """[] when every decision case of the table function `b` (read through the private helpers of its unit) returns
+    the result of the conversion `tnv` or an error; the offending values otherwise; None = not read."""
+    from . import x_ipath
+    cases = x_ipath.decision_cases(facts, b, lambda c: c.get("key") in u.keys and c.get("key") not in stop_keys)
+    if cases is None or not len(cases) or not cases.walker.expanded:
+        return None
+    bad, through = [], 0
+    for conds, v, p in cases:
+        v = strip_refs(v)
+        if v[0] == "call" and v[1] and v[1].get("key") == tnv.key:
+            through += 1
+            continue
+        if v[0] == "call" and v[1] and v[1].get("path") == "std::result::Result::<T, E>::and_then" and len(v[2]) == 2:
+            f_ = strip_refs(v[2][1])
+            if f_[0] == "const" and ((f_[1].get("fn") or {}).get("resolved") or {}).get("key") == tnv.key:
+                through += 1
+                continue
+        if v[0] == "call" and v[1] and "from_residual" in (v[1].get("path") or ""):
+            continue
+        if v[0] == "agg" and v[1].get("variant") == "Err":
+            continue
+        if v == ("panic",):
+            continue
+        bad.append(show_expr(v)[:100])
+    if not bad and not through:
+        return None
+    return bad
 
 
 def _conversions_in(e, ckeys):
@@ -309,6 +353,29 @@ def error_on_none(s):
         w = pathsum.Walker(b, start=t_none, max_paths=400)
         if w.paths and not w.overflow and all((not p.truncated) and p.result is not None and strip_refs(p.result)[0] == "agg" and strip_refs(p.result)[1].get("variant") == "Err" for p in w.paths):
             return True
+        # the None edge stays in the loop but builds an error value there and carries it on (a recorded first failure
+        # decided after the loop): whether the function ends with that error is a fact about carried state — not read
+        headers = {v_ for (_, v_) in b.back_edges()}
+        if w.paths and not w.overflow and headers:
+            carried, errs_after = True, False
+            for p in w.paths:
+                cut = next((i_ for i_, bi_ in enumerate(p.blocks) if bi_ in headers), None)
+                r_ = strip_refs(p.result) if (p.result is not None and not p.truncated) else None
+                is_err = r_ is not None and ((r_[0] == "agg" and r_[1].get("variant") == "Err") or (r_[0] == "call" and r_[1] and "from_residual" in (r_[1].get("path") or "")))
+                if cut is None:
+                    if not is_err:
+                        carried = False
+                    continue
+                errs_after = errs_after or is_err
+                builds = False
+                for bi_ in p.blocks[:cut]:
+                    for st in b.blocks[bi_]["stmts"]:
+                        if st["k"] == "Assign" and st["rv"]["k"] == "Aggregate" and "Error" in (st["rv"].get("adt") or ""):
+                            builds = True
+                if not builds:
+                    carried = False
+            if carried and errs_after:
+                return "unread"
     # (c) map(...) then ok_or_else on the mapped value
     for bi, t in b.calls():
         p = callee_path(t) or ""
